@@ -34,7 +34,7 @@ from core import impl as I
 from core.common import b2f, f2b, close
 
 ID = "C05"
-LEAN_MODULES = ["AcnProofs.C05"]
+LEAN_MODULES = ["AcnProofs.C05", "AcnProofs.Lemmas.CodeTieSim"]
 DRIVER = "drv_C05"
 REQUIRED_THEOREMS = [
     "Acn.C05.head_init", "Acn.C05.lastUpd_after_events", "Acn.C05.lastUpd_at_head", "Acn.C05.run_is_trace",
